@@ -90,27 +90,43 @@ func runC16(c *Ctx) {
 		}
 		var listing string
 		history := "after-add"
+		twice := r.Chance(1, 5)
 		if p, msg := try(func() {
 			s, e := g.NewSimulator(gc)
 			if e != nil {
 				panic(e)
 			}
-			w, e := s.AddWarrior(&wd)
+			var w g.Warrior
+			if twice {
+				// callers fill one WarriorData variable again and again: an earlier warrior added through the
+				// same pointer must not be what the listing of this one shows
+				other, _ := genWarrior(r, int64(r.Intn(numForms)), d, m, maxLen)
+				shared := g.WarriorData{Name: "earlier", Author: "x", Code: toGCode(other), Start: 0}
+				if _, e = s.AddWarrior(&shared); e != nil {
+					panic(e)
+				}
+				shared = wd
+				shared.Code = append([]g.Instruction(nil), wd.Code...)
+				w, e = s.AddWarrior(&shared)
+			} else {
+				w, e = s.AddWarrior(&wd)
+			}
 			if e != nil {
 				panic(e)
 			}
+			wi := s.WarriorCount() - 1
 			// the listing denotes the warrior whatever the simulator did in between
 			switch r.Intn(4) {
 			case 1:
-				s.SpawnWarrior(0, g.Address(r.Intn(3*m)))
+				s.SpawnWarrior(wi, g.Address(r.Intn(3*m)))
 				history = "after-spawn"
 			case 2:
-				s.SpawnWarrior(0, g.Address(r.Intn(3*m)))
+				s.SpawnWarrior(wi, g.Address(r.Intn(3*m)))
 				s.RunCycle()
 				s.RunCycle()
 				history = "after-spawn-and-cycles"
 			case 3:
-				s.SpawnWarrior(0, g.Address(1+r.Intn(m-1)))
+				s.SpawnWarrior(wi, g.Address(1+r.Intn(m-1)))
 				s.RunCycle()
 				s.Reset()
 				history = "after-reset"
@@ -123,6 +139,9 @@ func runC16(c *Ctx) {
 		c.Inc("listings_read")
 		c.Inc("source_" + source)
 		c.Inc("listing_" + history)
+		if twice {
+			c.Inc("listings_of_second_warrior_added_through_the_same_pointer")
+		}
 		gotCode, gotStart, rerr := asm.ReadListing(listing, d, m)
 		if rerr != nil {
 			c.Violate("C16:unreadable", fmt.Sprintf("the listing does not follow the pMARS listing conventions: %v", rerr), cs(listing))
@@ -209,7 +228,7 @@ func cliListing(c *Ctx, idx int64, r *Rng) {
 	var p *asm.Prog
 	var mn *asm.Meaning
 	for t := 0; t < 30 && mn == nil; t++ {
-		p = asm.GenProg(r, asm.GenOpts{Cfg: cfg, MaxLines: 1 + r.Intn(min(cfg.Length, 8)), UseLabels: true, UseEqus: r.Bool(), UseConsts: r.Bool()})
+		p = asm.GenProg(r, asm.GenOpts{Cfg: cfg, MaxLines: 1 + r.Intn(min(cfg.Length, 8)), UseLabels: true, UseEqus: r.Bool(), UseConsts: r.Bool(), Meta: r.Bool()})
 		if m2, err := p.Meaning(); err == nil && len(m2.Code) > 0 {
 			mn = m2
 		}
